@@ -22,7 +22,7 @@ TRUSTED = ["Coq 8.16.1 kernel (coqc)", "tie/dump_params.cpp (+ tie/params/p2pd.h
 
 ARITY = {"t": 1, "a": 6, "g": 2, "at": 3, "c": 2, "sv": 2, "r": 0, "stc": 1, "ga": 5, "sel": 3, "sz": 2, "rl": 0}
 NOW0 = 1700000000
-_oracle = {"path": None, "T": [], "N": {}, "nkeys": 46, "nsrc": 13}
+_oracle = {"path": None, "T": [], "N": {}, "X": [], "nkeys": 52, "nsrc": 13}
 
 
 def split_ops(case):
@@ -55,12 +55,15 @@ class AddrTie(Tie):
         _oracle["path"] = path
         _oracle["T"] = []
         _oracle["N"] = {}
+        _oracle["X"] = []
         for l in out:
             w = l.split()
             if w[0] == "universe":
                 _oracle["nkeys"], _oracle["nsrc"] = int(w[1]), int(w[2])
             elif w[0] == "class" and w[1] == "T":
                 _oracle["T"].append([int(x) for x in w[2:]])
+            elif w[0] == "class" and w[1] == "X":
+                _oracle["X"].append([int(x) for x in w[2:]])
             elif w[0] == "class" and w[1] == "N":
                 _oracle["N"].setdefault(int(w[2]), []).append([int(x) for x in w[3:]])
         return cpp, mdl
@@ -113,7 +116,8 @@ def gen(rng, tier):
     T = _oracle["T"] or [[0, 1, 3, 5]]
     N = _oracle["N"] or {0: [[0, 7, 8]], 1: [[0, 9, 10]]}
     nk, ns = _oracle["nkeys"], _oracle["nsrc"]
-    eng = sorted(set(k for cl in T for k in cl) | set(k for s in N for cl in N[s] for k in cl))
+    X = _oracle["X"] or [[0, 46, 47]]     # tried-table collisions across networks (IPv4/IPv6, Tor/IPv6, CJDNS/IPv6)
+    eng = sorted(set(k for cl in T for k in cl) | set(k for s in N for cl in N[s] for k in cl) | set(k for cl in X for k in cl))
     cases = []
 
     class S:  # script builder with a clock
@@ -172,8 +176,39 @@ def gen(rng, tier):
     nscripts = 2000 if tier == "quick" else 30000
     for it in range(nscripts):
         s = S()
-        kind = it % 7
-        if kind == 0:
+        kind = it % 8
+        if kind == 7:
+            # an address moving into tried evicts a colliding tried entry of a DIFFERENT network: the per-network counters of both
+            # networks change (test-before-evict collision, resolved after the test window)
+            cl = list(rng.choice(X))
+            rng.shuffle(cl)
+            a, b = cl[0], cl[1]
+            s.add(a, rng.randrange(ns), dt=-5)
+            s.good(a)
+            if rng.random() < 0.4:
+                s.add(rng.choice(eng), rng.randrange(ns), dt=-5)
+            s.add(b, rng.randrange(ns), dt=-5)
+            s.good(b, dt=1)
+            if len(cl) > 2 and rng.random() < 0.4:
+                s.add(cl[2], rng.randrange(ns), dt=-5)
+                s.good(cl[2], dt=2)
+            r = rng.random()
+            if r < 0.5:
+                s.t(rng.choice([14400 + 2401, 14400 + 2500, 20000]))     # old entry untested for > 4h and the new one older than the test window
+            else:
+                s.t(rng.choice([14401, 15000]))
+                s.attempt(a, 1)
+                s.t(rng.choice([61, 100]))                                # failed attempt more than 60 s ago: replace
+            s.ops.append("r")
+            for net in (1, 2, 3, 5):
+                s.ops.append("sz %d %d" % (net, rng.choice([0, 1, 2])))
+            if rng.random() < 0.5:
+                s.ops.append("rl")
+                for net in (1, 2, 3, 5):
+                    s.ops.append("sz %d %d" % (net, rng.choice([0, 1])))
+            for _ in range(rng.randrange(4)):
+                s.misc()
+        elif kind == 0:
             # tried collisions and their resolution
             cl = list(rng.choice(T))
             rng.shuffle(cl)
